@@ -5,6 +5,7 @@ import (
 	"go/token"
 	"go/types"
 	"math/big"
+	"os"
 	"strings"
 
 	"golang.org/x/tools/go/ssa"
@@ -90,6 +91,11 @@ func (e *Enc) joinPreds(fr *frame, b *ssa.BasicBlock) *bstate {
 		cur.reach = r
 	}
 	if li != nil {
+		if len(edges) == 1 {
+			li.entryHeap = copyHeap(edges[0].st.heap)
+		} else {
+			li.entryHeap = nil
+		}
 		// invariant must hold on every entry edge
 		for _, ed := range edges {
 			e.checkInvariant(fr, li, ed.from, &bstate{reach: ed.cond, heap: ed.st.heap}, "inv-init")
@@ -254,6 +260,19 @@ func (e *Enc) invEnv(fr *frame, li *loopInfo, st *bstate, subst map[ssa.Value]ss
 func (e *Enc) autoInvariants(fr *frame, li *loopInfo, subst map[ssa.Value]ssa.Value) []string {
 	var out []string
 	h := li.header
+	for _, rng := range e.protected[li] {
+		// the ranged map itself is not touched by the updates in this loop (range-stable obligations)
+		if rm := e.ranges[rng]; rm != nil && rm.exact && e.curHeap != nil {
+			d, vcomp, l := e.W.mapComps(rm.mt)
+			get := func(c *Comp) string {
+				if v, ok := e.curHeap[c.Name]; ok {
+					return v
+				}
+				return c.Name + "@0"
+			}
+			out = append(out, sImp(sNot(sEq(rm.m, "0")), sAnd(sEq(app("select", get(d), rm.m), rm.dom0), sEq(app("select", get(vcomp), rm.m), rm.val0), sEq(app("select", get(l), rm.m), rm.len0))))
+		}
+	}
 	if rm := e.headerRange(li); rm != nil {
 		// position of the map iterator stays within the enumeration
 		hp := e.curIterHeap
@@ -375,6 +394,7 @@ func (e *Enc) checkInvariant(fr *frame, li *loopInfo, from *ssa.BasicBlock, st *
 	cls := e.loopClauses(li)
 	subst := phiSubst(li, from)
 	e.curIterHeap = st.heap["IT!pos"]
+	e.curHeap = st.heap
 	for i, t := range e.autoInvariants(fr, li, subst) {
 		o := e.oblige(st, kind, fmt.Sprintf("loop%d.auto%d", li.ordinal, i), t, li.header.Instrs[0].Pos())
 		if o != nil {
@@ -392,6 +412,9 @@ func (e *Enc) checkInvariant(fr *frame, li *loopInfo, from *ssa.BasicBlock, st *
 		if label == "" {
 			label = fmt.Sprintf("%d", i)
 		}
+		if os.Getenv("VERIF_DEBUG") != "" && !e.dry {
+			fmt.Fprintf(os.Stderr, "DEBUG %s loop%d.%s: %s\n   => %s\n", kind, li.ordinal, label, cl.Text, t)
+		}
 		o := e.oblige(st, kind, fmt.Sprintf("loop%d.%s", li.ordinal, label), t, li.header.Instrs[0].Pos())
 		if o != nil {
 			o.Detail = cl.Text
@@ -401,6 +424,7 @@ func (e *Enc) checkInvariant(fr *frame, li *loopInfo, from *ssa.BasicBlock, st *
 
 func (e *Enc) assumeInvariant(fr *frame, li *loopInfo, st *bstate) {
 	e.curIterHeap = st.heap["IT!pos"]
+	e.curHeap = st.heap
 	for _, t := range e.autoInvariants(fr, li, nil) {
 		e.assume(st.reach, t)
 	}
@@ -568,6 +592,11 @@ func (e *Enc) encodeInstr(fr *frame, b *ssa.BasicBlock, idx int, in ssa.Instruct
 		v := e.val(x.Val)
 		pt := x.Addr.Type().Underlying().(*types.Pointer).Elem()
 		if addr.Loc != nil {
+			if addr.Loc.Comp.Kind == "elems" && len(addr.Loc.Path) == 0 && len(e.P.reg.ElemInvs) > 0 {
+				if inv := e.elemValueInv(pt, e.asTerm(v)); inv != "true" {
+					e.oblige(st, "elem-inv", e.anchor(x.Pos(), "store element"), inv, x.Pos())
+				}
+			}
 			e.storeLoc(st, addr.Loc, e.asTerm(v))
 			return
 		}
@@ -646,8 +675,16 @@ func (e *Enc) encodeInstr(fr *frame, b *ssa.BasicBlock, idx int, in ssa.Instruct
 		// bindings that are addresses of locals escape: the closure may write them at any later call
 		e.note("closure created: " + x.Fn.Name())
 	case *ssa.MapUpdate:
+		if mt, ok := x.Map.Type().Underlying().(*types.Map); ok {
+			e.protectRange(fr, st, b, mt, e.term(st, x.Map), x.Pos())
+		}
 		e.encodeMapUpdate(st, x)
 	case *ssa.Call:
+		if bi, isB := x.Call.Value.(*ssa.Builtin); isB && bi.Name() == "delete" {
+			if mt, ok := x.Call.Args[0].Type().Underlying().(*types.Map); ok {
+				e.protectRange(fr, st, b, mt, e.term(st, x.Call.Args[0]), x.Pos())
+			}
+		}
 		e.encodeCall(fr, st, x, &x.Call, x)
 	case *ssa.Defer:
 		fr.defers = append(fr.defers, x)
@@ -725,7 +762,7 @@ func (e *Enc) encodeIndexAddr(st *bstate, x *ssa.IndexAddr) {
 		}
 		e.nilCheck(st, base.T, "array", x.Pos())
 		// arrays allocated via Alloc live in a cell component holding an SMT array; model element access via elems comp keyed by ref
-		e.setVal(x, Val{Loc: &Loc{Comp: e.W.elemComp(at.Elem()), Idx: []string{base.T, i}, Typ: at.Elem()}})
+		e.setVal(x, Val{Loc: &Loc{Comp: e.W.elemComp(at.Elem()), Idx: []string{base.T, app("idx", "0", i)}, Typ: at.Elem()}})
 	default:
 		e.note("unsupported IndexAddr " + x.String())
 		e.setVal(x, Val{T: e.fresh("idxaddr", "Int")})
@@ -783,8 +820,12 @@ func (e *Enc) encodeUnOp(st *bstate, x *ssa.UnOp) {
 		addr := e.val(x.X)
 		pt := x.X.Type().Underlying().(*types.Pointer).Elem()
 		var t string
+		elemInv := ""
 		if addr.Loc != nil {
 			t = e.loadLoc(st, addr.Loc)
+			if addr.Loc.Comp.Kind == "elems" && len(addr.Loc.Path) == 0 && len(e.P.reg.ElemInvs) > 0 {
+				elemInv = "?"
+			}
 		} else {
 			e.nilCheck(st, addr.T, "load", x.Pos())
 			if e.W.structInfo(pt) != nil {
@@ -796,6 +837,10 @@ func (e *Enc) encodeUnOp(st *bstate, x *ssa.UnOp) {
 		r := e.fresh("ld."+x.Name(), e.W.sortOf(pt))
 		e.assert(sEq(r, t))
 		e.assert(e.typeInv(r, pt))
+		if elemInv != "" {
+			e.assert(e.elemValueInv(pt, r))
+		}
+		e.assumeAllocated(st, Val{T: r, Typ: pt})
 		e.setVal(x, Val{T: r})
 	case token.NOT:
 		e.setVal(x, Val{T: sNot(e.term(st, x.X))})
@@ -1214,11 +1259,18 @@ type rangeModel struct {
 	ri    string // (it, key) -> pos
 	rn    string // it -> number of keys
 	exact bool
+	dom0  string // domain / values / size of the map when the range statement started
+	val0  string
+	len0  string
 }
 
 func (e *Enc) iterComp() *Comp { return e.W.comp("IT!pos", "(Array Int Int)", "iter") }
 
-// mapRangeExact: the loop that iterates rng does not add/remove keys of that map type.
+// mapRangeExact: the exact enumeration model applies when the loop that iterates rng
+// does not add/remove keys of the ranged map. If the loop updates maps of the same
+// type directly (MapUpdate / delete instructions, no calls), the model still applies
+// provided each such update targets a different map object: that is turned into a
+// "range-stable" obligation at each update (see protectRange).
 func (e *Enc) mapRangeExact(fr *frame, rng *ssa.Range, mt *types.Map) bool {
 	if e.dry {
 		return true
@@ -1234,11 +1286,45 @@ func (e *Enc) mapRangeExact(fr *frame, rng *ssa.Range, mt *types.Map) bool {
 			return false
 		}
 		w := e.loopWrites(li)
-		if w["*"] || w[d.Name] {
+		if w["*"] {
 			return false
+		}
+		if w[d.Name] {
+			// only direct updates allowed
+			for b := range li.body {
+				for _, in := range b.Instrs {
+					switch c := in.(type) {
+					case *ssa.Call:
+						if bi, isB := c.Call.Value.(*ssa.Builtin); isB && (bi.Name() == "delete" || bi.Name() == "len" || bi.Name() == "append" || bi.Name() == "cap" || bi.Name() == "copy") {
+							continue
+						}
+						return false
+					case *ssa.Go, *ssa.Defer, *ssa.Select:
+						return false
+					}
+				}
+			}
+			e.protected[li] = append(e.protected[li], rng)
 		}
 	}
 	return true
+}
+
+// protectRange: an update of map m inside a loop that ranges (with the exact model) over
+// maps of the same type must not touch the ranged map itself.
+func (e *Enc) protectRange(fr *frame, st *bstate, b *ssa.BasicBlock, mt *types.Map, m string, pos token.Pos) {
+	for li, rngs := range e.protected {
+		if !li.body[b] {
+			continue
+		}
+		for _, rng := range rngs {
+			rm := e.ranges[rng]
+			if rm == nil || !types.Identical(rm.mt, mt) {
+				continue
+			}
+			e.oblige(st, "range-stable", e.anchor(pos, "map update during range"), sNot(sEq(m, rm.m)), pos)
+		}
+	}
 }
 
 // encodeRange sets up the ghost enumeration of a map's keys: a duplicate-free
@@ -1265,8 +1351,9 @@ func (e *Enc) encodeRange(fr *frame, st *bstate, x *ssa.Range) {
 	e.items = append(e.items, fmt.Sprintf("(declare-fun %s (Int Int) %s)", rm.rk, ks),
 		fmt.Sprintf("(declare-fun %s (Int %s) Int)", rm.ri, ks), fmt.Sprintf("(declare-fun %s (Int) Int)", rm.rn))
 	rm.it = e.newRef(st, "iter")
-	d, _, l := e.W.mapComps(mt)
+	d, vcomp, l := e.W.mapComps(mt)
 	dom := app("select", e.heapVar(st, d), m)
+	rm.dom0, rm.val0, rm.len0 = dom, app("select", e.heapVar(st, vcomp), m), app("select", e.heapVar(st, l), m)
 	inDom := func(k string) string { return sAnd(sNot(sEq(m, "0")), app("select", dom, k)) }
 	n := app(rm.rn, rm.it)
 	e.assume(st.reach, sEq(n, sIte(sEq(m, "0"), "0", app("select", e.heapVar(st, l), m))))
@@ -1441,4 +1528,34 @@ func (e *Enc) localSlicePhi(li *loopInfo, p *ssa.Phi) bool {
 		return false
 	}
 	return ok(p)
+}
+
+// elemValueInv: declared invariants on the elements of slices with element type el.
+func (e *Enc) elemValueInv(el types.Type, v string) string {
+	var cs []string
+	for _, mi := range e.P.reg.ElemInvs {
+		pkg := e.P.tpkgs[mi.Pkg]
+		if pkg == nil {
+			continue
+		}
+		t, err := e.evalType(mi.TypeText, pkg)
+		if err != nil {
+			e.errors = append(e.errors, fmt.Sprintf("%s: elemvalues: %v", mi.Src, err))
+			continue
+		}
+		st, ok := t.Underlying().(*types.Slice)
+		if !ok || !types.Identical(st.Elem(), el) {
+			continue
+		}
+		env := e.newSpecEnv(nil, nil)
+		env.pkg = pkg
+		env.binders["v"] = SVal{T: v, Typ: el, Sort: e.W.sortOf(el)}
+		f, err := env.formula(mi.Expr)
+		if err != nil {
+			e.errors = append(e.errors, fmt.Sprintf("%s: elemvalues: %v", mi.Src, err))
+			continue
+		}
+		cs = append(cs, f)
+	}
+	return sAnd(cs...)
 }
